@@ -492,9 +492,13 @@ class Visitor(ast.NodeVisitor):
         ):
             result = getattr(builtins, node.id)
 
-        if result is None and node.id != "None":
+        if (
+            result is None
+            and node.id not in self._name_to_value
+            and node.id != "None"
+        ):
             # The variable refers to a name local of the lambda (e.g., a target in the generator expression).
-            # Since we evaluate generator expressions with runtime compilation, None is returned here as a placeholder.
+            # Since we evaluate generator expressions with runtime compilation, a placeholder is returned here.
             return PLACEHOLDER
 
         self.recomputed_values[node] = result
